@@ -299,6 +299,48 @@ func c11(c *Ctx) {
 			s.rootIdx = i
 		}
 	}
+	// after a rename: by role. root = the field RealPath joins the client's path under (first argument of its last Join),
+	// cwd = the field the Cwd() accessor returns
+	if s.rootIdx < 0 {
+		for _, call := range Calls(s.rp) {
+			if f := call.Common().StaticCallee(); f != nil && f.Name() == "Join" && PkgOf(f) == "path/filepath" && len(call.Common().Args) == 1 {
+				// variadic: the first element of the argument slice
+				if sl, ok := call.Common().Args[0].(*ssa.Slice); ok {
+					if al, ok := sl.X.(*ssa.Alloc); ok {
+						for _, ref := range *al.Referrers() {
+							ia, ok := ref.(*ssa.IndexAddr)
+							if !ok {
+								continue
+							}
+							if k, isK := ConstInt(ia.Index); !isK || k != 0 {
+								continue
+							}
+							for _, r2 := range *ia.Referrers() {
+								if st, isSt := r2.(*ssa.Store); isSt {
+									if ld, isLd := st.Val.(*ssa.UnOp); isLd {
+										if fa, isFA := ld.X.(*ssa.FieldAddr); isFA && fa.X == ssa.Value(s.rp.Params[0]) {
+											s.rootIdx = fa.Field
+										}
+									}
+								}
+							}
+						}
+					}
+				}
+			}
+		}
+	}
+	if s.cwdIdx < 0 {
+		if cw := p.Method(fsRel, "Htfs", "Cwd"); cw != nil && cw.Blocks != nil {
+			for _, r := range Returns(cw) {
+				if ld, isLd := RetVals(r)[0].(*ssa.UnOp); isLd {
+					if fa, isFA := ld.X.(*ssa.FieldAddr); isFA && fa.X == ssa.Value(cw.Params[0]) {
+						s.cwdIdx = fa.Field
+					}
+				}
+			}
+		}
+	}
 	if !c.Anchor(s.cwdIdx >= 0 && s.rootIdx >= 0, "containment", "fields Htfs.cwd / Htfs.root") {
 		return
 	}
